@@ -133,7 +133,7 @@ func specEncT3Req(requestKey, nameKeyID, encrypted, signature string) string {
 //@ ensures ok == (len(data) >= 85 && data[0] == 0 && data[1] == 3 && n >= 1 && len(data) == 85+n+96)
 //@ ensures ok ==> sameslice(r.RequestKey, data[2:51]) && sameslice(r.NameKeyID, data[51:83]) && sameslice(r.Signature, data[85+n:85+n+96])
 //@ ensures ok ==> string(r.EncryptedTokenRequest) == string(data[85:85+n]) && fresh(r.EncryptedTokenRequest)
-//@ ensures ok ==> (r.raw == nil || string(r.raw) == specEncT3Req(string(r.RequestKey), string(r.NameKeyID), string(r.EncryptedTokenRequest), string(r.Signature)))
+//@ ensures[C01 C04 C07 C16] ok ==> (r.raw == nil || string(r.raw) == specEncT3Req(string(r.RequestKey), string(r.NameKeyID), string(r.EncryptedTokenRequest), string(r.Signature)))
 //@ assigns r.RequestKey, r.NameKeyID, r.EncryptedTokenRequest, r.Signature, r.raw
 //@ alloc len(data)
 //@ end
@@ -189,7 +189,7 @@ func specEncInner(keyID uint8, blinded, padded string) string {
 //@ ensures ok == (len(data) >= 259 && len(data)-259 >= n)
 //@ ensures ok ==> r.tokenKeyId == data[0] && sameslice(r.blindedMsg, data[1:257])
 //@ ensures ok ==> string(r.paddedOrigin) == string(data[259:259+n]) && fresh(r.paddedOrigin)
-//@ ensures ok ==> (r.raw == nil || string(r.raw) == specEncInner(r.tokenKeyId, string(r.blindedMsg), string(r.paddedOrigin)))
+//@ ensures[C01 C04 C07 C20 C16] ok ==> (r.raw == nil || string(r.raw) == specEncInner(r.tokenKeyId, string(r.blindedMsg), string(r.paddedOrigin)))
 //@ assigns r.tokenKeyId, r.blindedMsg, r.paddedOrigin, r.raw
 //@ alloc len(data)
 //@ end
